@@ -63,6 +63,7 @@ def strategy(tier):
     return st.fixed_dictionaries(dict(
         top=st.sampled_from(['pure', 'nestable', 'nestable']),
         verbose=st.integers(0, 4).map(lambda v: v == 0),
+        interleave=st.integers(0, 3).map(lambda v: v == 0),
         tree=level(0, 12),
         program=st.lists(st.tuples(st.booleans(), st.integers(0, 11), st.integers(0, 11)),
                          max_size=6)))
@@ -114,7 +115,7 @@ def expected_check(sched, built_by_sched):
 LINE = re.compile(r'^(\d+) ')
 
 
-def check_level(sched, objs, res, where, nontrivial):
+def check_level(sched, objs, res, where, nontrivial, interleave=False):
     n = len(objs)
     edges = level_edges(objs)
     acyclic = is_acyclic(range(n), edges)
@@ -128,6 +129,14 @@ def check_level(sched, objs, res, where, nontrivial):
                     got.append(job)
                     if len(got) > n + 2:
                         break
+                    if interleave:
+                        # read-only queries made while the generator is being consumed
+                        # (only nesting topological_order() itself is documented as
+                        # unsupported)
+                        sched.predecessors_upstream(job)
+                        sched.successors_downstream(job)
+                        list(sched.exit_jobs())
+                        list(sched.entry_jobs())
             except Loops:
                 raise
             except Exception as exc:
@@ -236,7 +245,8 @@ def evaluate(case):
         all_acyclic = True
         for sched, objs in built.levels:
             where = "%s level %s (%s)" % (tag, sched.v_id, type(sched).__name__)
-            check_level(sched, objs, res, where, nontrivial)
+            check_level(sched, objs, res, where, nontrivial,
+                        interleave=bool(case.get('interleave')))
             acyc = is_acyclic(range(len(objs)), level_edges(objs))
             all_acyclic = all_acyclic and acyc
             want = expected_check(sched, by_sched)
